@@ -27,6 +27,9 @@ X5 (K2) _export_iter_entries: with a sub-directory only `subdir` itself and path
 yielded (a component-aware prefix: `sub` does not match `subdir2`), the tree root is skipped, and what is yielded for
 them is the path relative to the sub-directory.
 X6 tar and zip place every entry under `root` (pathjoin(root, <relative path>)).
+X7 _export_iter_entries asks tree.is_special_path about the entry's tree path (not the exported, sub-directory relative
+name). X8 no exporter leaves an iteration of its entry loop early (continue/break), and every normal way through the
+symlink arm of the directory and tar exporters creates the link.
 Does not decide: that the bytes written equal the tree's contents (values).
 """
 
@@ -99,6 +102,30 @@ def run(ctx):
     vals = sorted(norm(s.value) for s in fin)
     ctx.check("X5-subdir-filter", wi, vals == ["entry.name", "path", "path[len(subdir) + 1:]"], "the exported name is relative to the sub-directory", construct=str(vals))
     ctx.check("X5-subdir-filter", wi, "path == ''" in tests and any(isinstance(y, ast.Yield) and norm(y.value) == "(final_path, path, entry)" for y in ast.walk(fi)), "the tree root itself is skipped; (exported name, tree path, entry) is yielded")
+    # ---- X7: control-file filtering looks at the *tree* path ------------------------------------
+    # tree.is_special_path() means "this tree path is a control file/dir at the top of the tree"; asked about the
+    # exported (sub-directory relative) name it also drops `<subdir>/.bzrignore` and friends from a sub-directory export
+    sp = [c for c in calls_in(fi) if call_attr(c) == "is_special_path"]
+    ctx.check("X7-special-path-on-tree-path", wi, len(sp) >= 1 and all([norm(a) for a in c.args] == ["path"] for c in sp), "is_special_path is asked about the tree path of the entry", construct="; ".join(norm(c) for c in sp), message=f"_export_iter_entries asks tree.is_special_path about {[norm(a) for c in sp for a in c.args]} instead of the entry's tree path: with a sub-directory export, entries named .bzr* directly under the sub-directory are silently left out — the export is not exactly that sub-tree")
+    # ---- X8: no entry the shared iterator yields is skipped by an exporter -----------------------
+    from ..cfg import build_cfg
+
+    for k in ("dir", "tar", "zip"):
+        rel, q = exporters[k]
+        loops = [l_ for l_ in ast.walk(fns[k]) if isinstance(l_, ast.For) and "_export_iter_entries" in norm(l_.iter)]
+        ctx.require(len(loops) == 1, f"{rel}:{q}: entry loop not found")
+        skips = [f"L{n.lineno}:{type(n).__name__.lower()}" for n in ast.walk(loops[0]) if isinstance(n, (ast.Continue, ast.Break))]
+        ctx.check("X8-no-entry-skipped", f"{rel}:{q}", not skips, f"{q}: the entry loop has no continue/break", construct="; ".join(skips), message=f"{q} leaves its entry loop iteration early ({skips}): an entry of the tree is silently missing from the export although the export reports success")
+    for k in ("dir", "tar-item"):
+        rel, q = exporters[k]
+        g8 = build_cfg(fns[k]).without_exc_edges()
+        t8 = [n.id for n in g8.nodes if n.kind == "test" and any(isinstance(c, ast.Compare) and norm(c.left).endswith(".kind") and const_value(c.comparators[0]) == "symlink" for c in ast.walk(n.ast))]
+        mk = [n.id for n in g8.nodes if any(norm(c.func) == "os.symlink" for c in n.calls()) or (n.kind == "stmt" and isinstance(n.ast, ast.Assign) and norm(n.ast.value) == "tarfile.SYMTYPE")]
+        ctx.require(bool(t8) and bool(mk), f"{rel}:{q}: symlink arm / link creation not found")
+        starts = [b for t in t8 for (b, l_) in g8.succ[t] if l_ == "T" and b not in mk]
+        r8 = g8.reach(starts, avoid=set(mk), include_src=True)
+        escaped = sorted(i for i in r8 if i == g8.exit or (g8.nodes[i].kind == "stmt" and isinstance(g8.nodes[i].ast, ast.Expr) and isinstance(g8.nodes[i].ast.value, ast.Yield)))
+        ctx.check("X8-no-entry-skipped", f"{rel}:{q}", not escaped, f"{q}: every normal way through the symlink arm creates the link", construct="; ".join(g8.nodes[i].text()[:40] for i in escaped), message=f"{q} can get through its symlink arm without creating the link (and without raising): the tree's symlink is silently missing from the export")
     # ---- X6 -----------------------------------------------------------------------------------
     for k in ("tar-item", "zip"):
         rel, q = exporters[k]
@@ -109,6 +136,8 @@ def run(ctx):
 
 
 MUTANTS = [
+    Mutant("special-path test on the exported name", EX, "        if skip_special and tree.is_special_path(path):\n            continue\n", "        if skip_special and tree.is_special_path(path if not subdir else path[len(subdir) + 1 :]):\n            continue\n", expect="X7-special-path-on-tree-path"),
+    Mutant("directory exporter skips symlinks it cannot create", EX, "        elif ie.kind == \"symlink\":\n            try:\n", "        elif ie.kind == \"symlink\":\n            if not osutils.supports_symlinks(dest):\n                yield\n                continue\n            try:\n", expect="X8-no-entry-skipped"),
     Mutant("zip exporter ignores the executable bit", ZIP, "                    if tree.is_executable(tp):\n                        zinfo.external_attr = _EXECUTABLE_FILE_ATTR\n                    else:\n                        zinfo.external_attr = _FILE_ATTR\n", "                    zinfo.external_attr = _FILE_ATTR\n", expect="X3-executable-bit"),
     Mutant("tar exporter ignores the executable bit", TAR, "        if tree.is_executable(tree_path):\n            item.mode = 0o755\n        else:\n            item.mode = 0o644\n", "        item.mode = 0o644\n", expect="X3-executable-bit"),
     Mutant("sub-directory filter by plain prefix", EX, "            if path.startswith(subdir + \"/\"):", "            if path.startswith(subdir):", expect="X5-subdir-filter"),
